@@ -144,6 +144,12 @@ def rule_handwritten(prog, res):
                "intermediate buffers: %s" % bufs, f.loc, sample={"buffers": bufs, "streams": streams})
         res.ob("Z-buf", "Df88591String::serialize | the characters are handed to the serializer (collect_str / serialize_str)", streams or bool(strs),
                str(calls), f.loc)
+        # every sink is the character adaptor: the stored bytes are Latin-1 codes, not UTF-8, so a path that hands them (or a str view of
+        # them) to the serializer directly skips the to_char mapping and changes every byte >= 0x80 (and 0)
+        sinks = [c for c in calls if c and "Serializer::" in c]
+        raw = [c for c in sinks if not c.endswith("Serializer::collect_str")]
+        res.ob("Z-buf", "Df88591String::serialize | every path reaches the serializer through the to_char adaptor (no raw view of the Latin-1 bytes)", not raw,
+               "other sinks: %s" % raw, f.loc)
         if streams:
             # the Display adaptor writes every char
             g = next((h for p, h in prog.fns.items() if "Df88591String<N>" in p and "::serialize::" in p and p.endswith("core::fmt::Display>::fmt")), None)
